@@ -569,4 +569,80 @@ theorem durUnmarshal_err {s : Str} {e : Err} (h : durUnmarshal s = .error e) : e
   · cases h
 
 
+/-! ## Characters of the numeric texts -/
+
+theorem digit_ne {c d : Char} (h : isDigit c = true) (hd : isDigit d = false) : c ≠ d := by
+  intro e; subst e; simp [h] at hd
+
+theorem natToDigits_isDigit {n : Nat} {c : Char} (h : c ∈ natToDigits n) : isDigit c = true :=
+  List.all_eq_true.mp (natToDigits_all_digit n) c h
+
+theorem not_mem_natToDigits {n : Nat} {d : Char} (hd : isDigit d = false) : d ∉ natToDigits n :=
+  fun h => digit_ne (natToDigits_isDigit h) hd rfl
+
+theorem natToDigits_head {n : Nat} {d : Char} (hd : isDigit d = false) : (natToDigits n).head? ≠ some d := by
+  intro h
+  have : d ∈ natToDigits n := List.mem_of_mem_head? (by rw [h]; rfl)
+  exact not_mem_natToDigits hd this
+
+theorem natToDigits_getLast {n : Nat} {d : Char} (hd : isDigit d = false) : (natToDigits n).getLast? ≠ some d := by
+  intro h
+  have : d ∈ natToDigits n := List.mem_of_getLast? h
+  exact not_mem_natToDigits hd this
+
+theorem formatInt_nonneg {i : Int} (h : 0 ≤ i) : formatInt i = natToDigits i.toNat := by
+  unfold formatInt
+  have : ¬ i < 0 := by omega
+  simp only [this, if_false]
+  congr 1
+  omega
+
+theorem parseUint_formatInt {bits : Nat} {i : Int} (h0 : 0 ≤ i) (h1 : i < 2 ^ bits) :
+    parseUint bits (formatInt i) = .ok i.toNat := by
+  rw [formatInt_nonneg h0]
+  apply parseUint_natToDigits
+  have : (i.toNat : Int) = i := Int.toNat_of_nonneg h0
+  have h2 : ((2 ^ bits : Nat) : Int) = 2 ^ bits := by simp
+  omega
+
+/-- every character of a fixed-point decimal is a digit or the point -/
+theorem decFixed_chars {p N : Nat} {c : Char} (h : c ∈ F64.decFixed p N) : isDigit c = true ∨ c = '.' := by
+  unfold F64.decFixed F64.padLeft at h
+  simp only [List.mem_append, List.mem_cons, List.mem_replicate] at h
+  rcases h with h | h | h | h
+  · exact Or.inl (natToDigits_isDigit h)
+  · exact Or.inr h
+  · rw [h.2]; exact Or.inl (by decide)
+  · exact Or.inl (natToDigits_isDigit h)
+
+theorem decInt_chars {p : Nat} {q : Int} {c : Char} (h : c ∈ decInt p q) : isDigit c = true ∨ c = '.' ∨ c = '-' := by
+  unfold decInt at h
+  rcases List.mem_append.mp h with h | h
+  · split at h
+    · simp at h; exact Or.inr (Or.inr h)
+    · cases h
+  · rcases decFixed_chars h with h | h
+    · exact Or.inl h
+    · exact Or.inr (Or.inl h)
+
+/-- a character that is not a digit, `.` or `-` does not occur in a decimal text -/
+theorem not_mem_decInt {p : Nat} {q : Int} {d : Char} (h1 : isDigit d = false) (h2 : d ≠ '.') (h3 : d ≠ '-') :
+    d ∉ decInt p q := by
+  intro h
+  rcases decInt_chars h with h | h | h
+  · simp [h] at h1
+  · exact h2 h
+  · exact h3 h
+
+theorem decInt_head {p : Nat} {q : Int} {d : Char} (h1 : isDigit d = false) (h2 : d ≠ '.') (h3 : d ≠ '-') :
+    (decInt p q).head? ≠ some d := by
+  intro h
+  exact not_mem_decInt h1 h2 h3 (List.mem_of_mem_head? (by rw [h]; rfl))
+
+theorem decInt_getLast {p : Nat} {q : Int} {d : Char} (h1 : isDigit d = false) (h2 : d ≠ '.') (h3 : d ≠ '-') :
+    (decInt p q).getLast? ≠ some d := by
+  intro h
+  exact not_mem_decInt h1 h2 h3 (List.mem_of_getLast? h)
+
+
 end Hls.Playlist
